@@ -8,9 +8,9 @@
 (*   "Roadm"  one ROADM crossing           (C06: Equalises, NeverAmplifies, NotAboveTarget, LossApplied, Reported,    *)
 (*                                          SinglePolicy)                                                         *)
 (*   "Edfa"   one amplifier crossing       (C04: EffLaw, PadLaw, GainLaw, NeverAbovePmax, FlatProfile, AseLaw,       *)
-(*                                               PoutReported, OutOfBand)                                           *)
+(*                                               NfRipple, NoMemory, PoutReported, OutOfBand)                       *)
 (*   "Sweep"  NF of one amplifier type over increasing gains (C04: NfMinAtFlatMax, NfMaxAtGainMin, NonIncreasing,    *)
-(*                                               DbForDbBelowMin)                                                   *)
+(*                                               NonIncreasingExtended, ClampAboveMax, DbForDbBelowMin)             *)
 (*   "Fiber"  one fibre crossing           (C05: LossBudget + the accumulation clauses)                             *)
 (*   "Acc"    accumulators around a ROADM / amplifier crossing (C05: CdLinear, LatencyLinear, PmdQuadrature, ...)    *)
 (*   "End"    final accumulators of one ordering of a set of elements (C05: OrderIndependent, against the first      *)
@@ -54,6 +54,8 @@ EdfaClauses(e) ==
    \cup Fails("NeverAbovePmax", AmpNeverAbovePmax(e, tg))
    \cup Fails("FlatProfile", AmpFlatProfile(e, Tol))
    \cup Fails("AseLaw", AmpAseLaw(e, Tol))
+   \cup Fails("NfRipple", AmpNfRippleLaw(e, Tol))
+   \cup Fails("NoMemory", AmpNoMemory(e, Tol))
    \cup Fails("PoutReported", AmpPoutReported(e, Tol))
    \cup Fails("OutOfBand", e.bandDecided = 0 \/ AmpBandLaw(e.inb, e.outb, e.band))
 
@@ -61,6 +63,8 @@ SweepClauses(e) ==
         Fails("NfMinAtFlatMax", SweepNfMinAtFlatMax(e, e.pts, TolNfEnd))
    \cup Fails("NfMaxAtGainMin", SweepNfMaxAtGainMin(e, e.pts, TolNfEnd))
    \cup Fails("NonIncreasing", SweepNonIncreasing(e, e.pts, TolNoAmp))
+   \cup Fails("NonIncreasingExtended", SweepNonIncreasingExtended(e, e.pts, TolNoAmp))
+   \cup Fails("ClampAboveMax", SweepClampAboveMax(e, e.pts, Tol))
    \cup Fails("DbForDbBelowMin", SweepDbForDbBelowMin(e, e.pts, Tol))
 
 AccClauses(e) ==
